@@ -144,8 +144,12 @@ def case_agent(ctx, case):
         ctx.count('default_priority_runs')
     pb = cprio + rng.choice([0, 1, 2, 6])       # equal priority but registered earlier also runs before the collector
     pa = cprio - rng.choice([1, 4])
+    twin_collector = rng.random() < 0.3     # a second collector sampling the same quantity (same functions), under another id
     model.systems.add_system(Churn('before', model, before, pb))
-    model.systems.add_system(Churn('after', model, after, pa))
+    if twin_collector and rng.random() < 0.6:
+        after = {}                          # (no system below the collectors: they are the last to run)
+    else:
+        model.systems.add_system(Churn('after', model, after, pa))
     mode = rng.choice(['value', 'none_for_some', 'none_for_all'])
     comp_mode = rng.choice([None, 'dict', 'sometimes', 'never', 'shared', 'shared'])
     shared_summary = {}
@@ -153,8 +157,12 @@ def case_agent(ctx, case):
     start, end, freq = rng.choice([(0, sys.maxsize, 1), (rng.randint(0, 5), rng.randint(8, 40), rng.randint(1, 4)), (3, sys.maxsize, 2)])
 
     fail_after = [None]
+    misuse = []
 
-    def f(agent):
+    def f(agent, _scale=None):
+        # (an optional second parameter of the user's own: the collector calls the function with the agent only)
+        if _scale is not None:
+            misuse.append(f'the per-agent function was called with a second argument ({type(_scale).__name__})')
         if fail_after[0] is not None:
             fail_after[0] -= 1
             if fail_after[0] < 0:
@@ -168,7 +176,9 @@ def case_agent(ctx, case):
             return None
         return (agent.id, v)
 
-    def comp(agents):
+    def comp(agents, _weights=None):
+        if _weights is not None:
+            misuse.append(f'the composite function was called with a second argument ({type(_weights).__name__})')
         t = model.systems.timestep
         if comp_mode == 'never':
             return None
@@ -201,6 +211,9 @@ def case_agent(ctx, case):
     if not default_prio:
         kw['priority'] = cprio
     c = col.AgentCollector(model, f, **kw)
+    c2 = col.AgentCollector(model, f, id='second_sampler', **kw) if twin_collector else None
+    if twin_collector:
+        ctx.count('runs_with_a_second_collector_using_the_same_functions')
     if rng.random() < 0.35:
         # the model's environment is installed AFTER the collector was built (set-up order is the user's business; the Decoder also
         # builds systems before agents): 'the agents then in the environment' are those of the model's current environment
@@ -215,6 +228,8 @@ def case_agent(ctx, case):
     register_at = rng.choice([0, 0, rng.randint(1, 7)])          # attached after a burn-in (possibly off its own grid)
     if register_at == 0:
         model.systems.add_system(c)
+        if c2 is not None:
+            model.systems.add_system(c2)         # same priority, registered right after: runs right after, sees the same state
     else:
         ctx.count('collectors_attached_late')
     if default_prio:
@@ -233,10 +248,13 @@ def case_agent(ctx, case):
             model = _copy.deepcopy(model)
             env = model.environment
             c = model.systems.systems[cid]
+            c2 = model.systems.systems['second_sampler'] if c2 is not None else None
             history = [copy.deepcopy(r) for r in c.records]
             ctx.count('runs_continued_on_a_deep_copy_of_the_model')
         if t == register_at and t:
             model.systems.add_system(c)
+            if c2 is not None:
+                model.systems.add_system(c2)
             if default_prio:
                 # keep the documented situation: a default-priority system registered AFTER the collector
                 model.systems.remove_system('late_default')
@@ -291,7 +309,7 @@ def case_agent(ctx, case):
         n_before = len(c.records)
         touched = {e_[1] for e_ in list(before.get(t, ())) + list(late.get(t, ())) + list(after.get(t, ()))}      # (the retry re-runs this timestep's scripts)
         present = [aid for aid in (exp or {}) if aid in pop and aid not in ('timestep', 'count', 'sum') and aid not in touched]
-        if mode == 'value' and len(present) >= 2 and rng.random() < 0.15:
+        if mode == 'value' and len(present) >= 2 and not twin_collector and rng.random() < 0.15:
             # the per-agent function raises half-way through this pass; the caller catches it, one of the agents already visited leaves,
             # and the timestep is asked for again: the record is that of the agents THEN in the environment - nothing of the failed pass
             from vlib import faults
@@ -325,6 +343,14 @@ def case_agent(ctx, case):
             if len(new) != 1 or new[0] != exp:
                 raise CaseViolation('the collected record differs from the per-agent results of the agents then in the environment',
                                     expected=exp, observed=new, **detail)
+        if misuse:
+            raise CaseViolation(misuse[0] + ': the functions are called with the agent / the agents only', **detail)
+        if c2 is not None:
+            ctx.count('second_collector_comparisons')
+            if c2.records != c.records or any(r1 is r2 for r1, r2 in zip(c.records, c2.records)):
+                raise CaseViolation('a second agent collector with the same functions and the same schedule (another id) did not append the same records '
+                                    'of its own', first=len(c.records), second=len(c2.records), second_last=c2.records[-1:], first_last=c.records[-1:],
+                                    queued=[getattr(s, 'id', None) for s in model.systems.execution_queue], **detail)
         # earlier records must never be altered
         for k, old in enumerate(history):
             if c.records[k] != old:
